@@ -116,6 +116,9 @@ def g_exts(rng):
     d = {}
     for _ in range(rng.choice([0, 0, 1, 1, 2, 3])):
         key = "".join(rng.choice("abzAZ-_") for _ in range(rng.choice([1, 2, 5])))
+        if rng.random() < 0.25:
+            # names that themselves begin like the X- prefix the writer puts in front of them (the grammar allows any letters, '-' and '_')
+            key = rng.choice(["X-", "x-", "X-X-", "X", "x", "X-ORIGIN", "x-" + key, "X-" + key, "X_" + key, "-X-" + key, "XX-"])
         d[key] = [g_qdtext(rng) for _ in range(rng.choice([1, 1, 1, 2, 3, 0]))]
     return d
 
